@@ -380,7 +380,10 @@ func init() {
 			return stamps
 		}
 		return sv("", "YYYY-MM-DD", "YY", "Y", "YYY", "M MM MMM MMMM MMMMM", "D DD DDD", "EEE EEEE E EE", "h hh H HH m mm s ss", "hhh", "AA aa A a", "Z ZZ ZZZ ZZZZ ZZZZZ ZZZZZZ",
-			"'literal'", "'unterminated", "''", "x", "YYYY-MM-DD'T'hh:mm:ssZ", "\u00e9", "DD 'of' MMMM", "'it''s'", "-/:,. ", "MMM DD, YYYY", "H", "s", "mmm", "sss", "Q", "0", "YYYYY")
+			"'literal'", "'unterminated", "''", "x", "YYYY-MM-DD'T'hh:mm:ssZ", "\u00e9", "DD 'of' MMMM", "'it''s'", "-/:,. ", "MMM DD, YYYY", "H", "s", "mmm", "sss", "Q", "0", "YYYYY",
+			// long formats: literal runs around the sizes at which buffered scanners refill (2 KiB, 4 KiB, 64 KiB), verbs before and after
+			"YYYY-MM-DD '"+strings.Repeat("x", 2100)+"' hh:mm:ss", "YYYY-MM-DD "+strings.Repeat("-", 4100)+" hh:mm:ss", "YYYY '"+strings.Repeat("lit ", 1030)+"' DD",
+			"MM '"+strings.Repeat("y", 66000)+"' ss", "hh "+strings.Repeat(":", 66000)+" mm")
 	})
 	add("timeadd", stdlib.TimeAddFunc, func(pos int, th bool) []cty.Value {
 		if pos == 0 {
